@@ -265,7 +265,12 @@ type vpKNode struct {
 
 func vpKCustom(net *vpKNet, self int) *config.Custom {
 	custom := &config.Custom{}
-	custom.Node.Signer = net.Signers[self].PrivateSpendKey
+	if self < 0 {
+		// an observer: a node whose signer is not (yet) a member of the network
+		custom.Node.Signer = crypto.NewKeyFromSeed(vpKSeed("observer", net.NetId.String()))
+	} else {
+		custom.Node.Signer = net.Signers[self].PrivateSpendKey
+	}
 	custom.Node.MemoryCacheSize = 8
 	custom.Node.CacheTTL = 7200
 	custom.Node.KernelOprationPeriod = 700
@@ -495,7 +500,7 @@ func (k *vpKNode) Deliver(s *common.Snapshot, bodies []*common.VersionedTransact
 		}
 	}
 	chain := k.Node.getOrCreateChain(s.NodeId)
-	m := &CosiAction{PeerId: k.Net.NodeIds[(k.Self+1)%len(k.Net.Gns.Nodes)], Action: CosiActionFinalization, Snapshot: s}
+	m := &CosiAction{PeerId: k.Net.NodeIds[(k.Self+1+len(k.Net.Gns.Nodes))%len(k.Net.Gns.Nodes)], Action: CosiActionFinalization, Snapshot: s}
 	err = chain.cosiHandleFinalization(m)
 	return m.finalized, err
 }
